@@ -313,8 +313,16 @@ Inductive due :=
 | NotDue                                                        (* no deadline passed: nothing re-saved *)
 | RefreshDue (new_token : str) (profile_groups : list str)      (* RefreshDeadline passed; /refresh 201, /profile 200 *)
 | ValidateDue (profile_groups : list str)                       (* ValidDeadline passed; /validate 200, /profile 200 *)
-| GraceFallback.                                                (* provider unavailable within the grace period:
+| GraceFallback                                                 (* provider unavailable within the grace period:
                                                                    only a deadline moves, session re-saved *)
+(* Two requests of ONE session overlap while a check is due: SingleFlightProvider
+   (providers/singleflight_middleware.go RefreshSession / ValidateSessionState) coalesces them on the
+   refresh token / access token. The closure runs for the request that LEADS the flight and mutates
+   only that request's session object; a request that JOINS the flight gets the boolean result and keeps
+   its own, unchanged (stale) session, which Authenticate then re-saves and asserts (DESIGN.md §7 D7 —
+   C16's finding; C03 only needs the values to be consistent and vouched for). *)
+| JoinedRefresh (new_token : str) (profile_groups : list str)
+| JoinedValidate (profile_groups : list str).
 
 (* ValidateGroup: no lookup when no groups are configured or the lone "*" *)
 Definition no_group_check (allowed : list str) : bool :=
@@ -324,7 +332,8 @@ Definition matched_groups (allowed ug : list str) : list str :=
 (* the provider refuses (membership revoked) when a lookup was made and nothing matched *)
 Definition due_succeeds (allowed : list str) (d : due) : bool :=
   match d with
-  | RefreshDue _ ug | ValidateDue ug => no_group_check allowed || negb (is_nil (matched_groups allowed ug))
+  | RefreshDue _ ug | ValidateDue ug | JoinedRefresh _ ug | JoinedValidate ug =>
+      no_group_check allowed || negb (is_nil (matched_groups allowed ug))
   | _ => true
   end.
 
@@ -335,9 +344,17 @@ Definition set_token (s : session) (t : str) : session :=
 
 Definition asserted_session (allowed : list str) (s : session) (d : due) : session :=
   match d with
-  | NotDue | GraceFallback => s
+  | NotDue | GraceFallback | JoinedRefresh _ _ | JoinedValidate _ => s
   | RefreshDue tok ug => set_token (set_groups s (matched_groups allowed ug)) tok
   | ValidateDue ug => set_groups s (matched_groups allowed ug)
+  end.
+
+(* the session the authenticator's answers of this exchange vouch for *)
+Definition fresh_session (allowed : list str) (s : session) (d : due) : session :=
+  match d with
+  | RefreshDue tok ug | JoinedRefresh tok ug => set_token (set_groups s (matched_groups allowed ug)) tok
+  | ValidateDue ug | JoinedValidate ug => set_groups s (matched_groups allowed ug)
+  | NotDue | GraceFallback => s
   end.
 
 (* SaveSession: what the Set-Cookie of this response carries *)
